@@ -27,7 +27,7 @@ RULE = (
 ASSUMPTIONS = ["fake streams stand in for sockets/stdio: EOF = read returns empty, errors are raised by read()/write()"]
 
 FAULTS = ["eof", "read-error", "eof-in-message", "junk-eof", "handler-exception", "write-error-then-read-error", "eof-of-two-at-once",
-          "read-error-in-message", "handler-exception-with-more-behind"]
+          "read-error-in-message", "handler-exception-with-more-behind", "write-error-two-updates-then-read-error"]
 
 
 class Exploding:
@@ -132,6 +132,27 @@ def run_script(case):
             victim.write_error()
             do({"s": "devtext", "val": "lost"})
             victim.read_error()
+        elif fault == "write-error-two-updates-then-read-error":
+            # the peer's write side is dead for a while before its read side notices: every device update routed in
+            # between must still reach all the other connections
+            victim.write_error()
+            for p in peers:
+                p.new_output()
+            sent_vals = [do({"s": "devtext", "val": "during"}), do({"s": "devtext", "val": "during"})]
+            s.settle()
+            for i, p in enumerate(peers):
+                if p is victim:
+                    continue
+                pol = policy[i].get("DEV", "Never")
+                if pol in ("Never", "Also"):
+                    els = p.elements(p.new_output())
+                    got = [v for v in sent_vals if any(e.tag == "setTextVector" and any(c.text == v for c in e) for e in els)]
+                    if got != sent_vals:
+                        raise Failure(
+                            f"bystander-missed-update-while-peer-write-fails:{p.kind}",
+                            f"{case['conns']} victim={victim_i} at={at}: bystander {i} ({p.kind}, policy {pol}) received {got} of {sent_vals}",
+                        )
+            victim.read_error()
         second_victim = None
         if fault == "eof-of-two-at-once" and nconn >= 3:
             # two connections end in the same loop iteration
@@ -223,7 +244,7 @@ def run_script(case):
             raise Failure(f"router-not-empty-at-the-end:{fault}", f"{where}: clients={len(router.clients)} policies={len(router.blob_routing)}")
         for ctx_ in s.unhandled():
             exc = ctx_.get("exception")
-            if exc is not None and fault != "write-error-then-read-error":
+            if exc is not None and not fault.startswith("write-error"):  # (the injected write error ends that peer's own send task)
                 raise Failure(f"task-exception:{type(exc).__name__}:{fault}", f"{where}: {exc!r}")
         inside = 0 < at < len(script)
         had_policy = bool(policy[victim_i])
